@@ -55,4 +55,56 @@ theorem forC_firstClear (rw : Nat) : ∀ (l : List Nat) (last : Nat),
 
 theorem range14 : PyFn.range 0 14 = (List.range 14).map fun (n : Nat) => (n : Int) := by decide
 
+/-- wipe data of `Topaz._format` (`Tlv.formatTopaz`: `List.replicate 90 (w % 256)`) -/
+theorem topaz_wipe_gen (n : Nat) (w : Nat) :
+    (PyFn.mkBytes [PyFn.band (w : Int) 255] >>= fun t1 => Except.ok (PyFn.repeatL t1 (n : Int)))
+      = .ok (List.replicate n (w % 256)) := by
+  rw [show (255 : Int) = ((255 : Nat) : Int) from rfl, band_ofNat, and255]
+  have := mkBytes_cast [w % 256] (by intro x hx; simp at hx; omega)
+  simp only [List.map_cons, List.map_nil] at this
+  rw [this]
+  simp only [Py.bind_ok, repeatL, Int.toNat_natCast]
+  congr 1
+  induction n with
+  | zero => rfl
+  | succ k ih => simp [List.replicate_succ, ih]
+
+
+/-- the tag's `writeAt` as list surgery -/
+theorem writeAt_splice : ∀ (v m : Bytes) (a : Nat), a + v.length ≤ m.length →
+    Tlv.writeAt m a v = m.take a ++ v ++ m.drop (a + v.length)
+  | [], m, a, _ => by simp [Tlv.writeAt]
+  | d :: ds, m, a, h => by
+    simp only [List.length_cons] at h
+    simp only [Tlv.writeAt]
+    rw [writeAt_splice ds (m.set a d) (a + 1) (by simp; omega)]
+    have e1 : (m.set a d).take (a + 1) = m.take a ++ [d] := by
+      rw [List.take_add_one, List.take_set_of_le (Nat.le_refl a)]
+      simp [List.getElem?_set_self (by omega : a < m.length)]
+    have e2 : (m.set a d).drop (a + 1 + ds.length) = m.drop (a + (ds.length + 1)) := by
+      rw [List.drop_set_of_lt (by omega)]; congr 1; omega
+    rw [e1, e2]
+    simp
+
+/-- model `setSlice` inside the image, as list surgery -/
+theorem tlv_setSlice_ok (c : Tlv.Cfg) (m : Bytes) (a : Nat) (v : Bytes) (h : a + v.length ≤ m.length) :
+    Tlv.setSlice c m a v = .ok (m.take a ++ v ++ m.drop (a + v.length)) := by
+  unfold Tlv.setSlice
+  rw [if_pos h, writeAt_splice v m a h]
+
+/-- `bytearray([wipe & 0xFF]) * n` spliced into the image -/
+theorem wipe_splice (m1 : Bytes) (a b n w : Nat) (hn : b = a + n) (hb : b ≤ m1.length) :
+    (PyFn.mkBytes [PyFn.band (w : Int) 255] >>= fun t1 =>
+      (Except.ok (PyFn.setSlice m1 (a : Int) (b : Int) (PyFn.repeatL t1 (n : Int))) : Py Bytes))
+      = .ok (m1.take a ++ List.replicate n (w % 256) ++ m1.drop b) := by
+  have hg := topaz_wipe_gen n w
+  have : (PyFn.mkBytes [PyFn.band (w : Int) 255] >>= fun t1 =>
+        (Except.ok (PyFn.setSlice m1 (a : Int) (b : Int) (PyFn.repeatL t1 (n : Int))) : Py Bytes))
+      = (PyFn.mkBytes [PyFn.band (w : Int) 255] >>= fun t1 => Except.ok (PyFn.repeatL t1 (n : Int))) >>= fun d =>
+          Except.ok (PyFn.setSlice m1 (a : Int) (b : Int) d) := by
+    cases PyFn.mkBytes [PyFn.band (w : Int) 255] <;> rfl
+  rw [this, hg]
+  simp only [Py.bind_ok]
+  rw [setSlice_nat m1 a b _ (by omega) hb]
+
 end NfcVerif.FnBridge.Vendor
